@@ -1,12 +1,31 @@
 """Property -> rules table."""
-import lattice_rules
+import lattice_rules, agg_rules
 
 
 def run_C16(ctx, rep):
     lattice_rules.check_L10(ctx, rep)
 
 
+def run_C17(ctx, rep):
+    agg_rules.check_L9(ctx, rep, ['aggregators'])
+    agg_rules.check_L11(ctx, rep)
+    rep.floor('L9', 1, 'panicking index operations in ascent::aggregators')
+    rep.floor('L11.empty', 7, 'aggregators')
+
+
 PROPS = {
+    'C17': {
+        'run': run_C17, 'corpus': False, 'level': 'other',
+        'explanation': 'L9: every panicking indexing operation in ascent::aggregators has an index bounded by the indexed vector '
+                       '(modulo its len, clamped under a non-empty guard, or dominated by i < len) - totality on the index; '
+                       'L11: shape of each library aggregator (fold polarity of min/max, Option vs once for the empty-input behaviour, '
+                       'size_hint shortcut of count only when lower == upper and no workspace iterator lies about size_hint, '
+                       'guarded division in mean, `not` yields iff next() is None - by abstract evaluation of its two cases). '
+                       'Decides totality and shape, NOT arithmetic (overflow, rounding, percentile rank).',
+        'assumptions': ['std iterator adaptors (min, max, sum, count, size_hint of std iterators) are correct',
+                        'arithmetic of sum/mean and the rank definition of percentile are not decided'],
+        'rule_text': 'one instance = one indexing operation (L9) or one shape obligation of one aggregator (L11)',
+    },
     'C16': {
         'run': run_C16, 'corpus': False, 'level': 'other',
         'explanation': 'L10: path-enumerating abstract interpretation (typed HIR, no execution) of every impl of Lattice / '
